@@ -99,9 +99,17 @@ J dump_double(double x)
         e++;
     }
     long long hi = (long long)(mant >> 26), lo = (long long)(mant & ((1ULL << 26) - 1));
+    // second, normalised representation for closeness tests in the
+    // specification: 53-bit mantissa in [2^52, 2^53) as (nhi, nlo), exponent ne
+    int ne;
+    double nm = std::frexp(std::fabs(x), &ne);
+    uint64_t nmant = (uint64_t)std::ldexp(nm, 53);
+    ne -= 53;
+    long long nhi = (long long)(nmant >> 26), nlo = (long long)(nmant & ((1ULL << 26) - 1));
     return term("Dbl",
                 {term("Int", {}, "", hi, 1), term("Int", {}, "", lo, 1),
-                 term("Int", {}, "", e, 1)},
+                 term("Int", {}, "", e, 1), term("Int", {}, "", nhi, 1),
+                 term("Int", {}, "", nlo, 1), term("Int", {}, "", ne, 1)},
                 "fin", sign, 0);
 }
 
